@@ -47,8 +47,25 @@ var (
 		{`e2`, e2},
 		{`7`, 7},
 		{`[]int{1}`, []int{1}}, // a value zap.Any turns into an array field
+		{`errObj{}`, errObj{}}, // an error that is also an ObjectMarshaler: bare it is an error, as a pair's value zap.Any picks the object form
 	}
 )
+
+func allAtomIdx() []int {
+	idx := make([]int, len(atoms))
+	for i := range idx {
+		idx[i] = i
+	}
+	return idx
+}
+
+type errObj struct{}
+
+func (errObj) Error() string { return "eo" }
+func (errObj) MarshalLogObject(enc zapcore.ObjectEncoder) error {
+	enc.AddBool("eo", true)
+	return nil
+}
 
 func listOf(idx []int) []interface{} {
 	out := make([]interface{}, len(idx))
@@ -493,9 +510,9 @@ type fatom struct {
 }
 
 func fAtoms(thorough bool) []fatom {
-	a := []fatom{{`1`, 1}, {`"s"`, "s"}, {`nil`, nil}, {`e1`, e1}, {`struct{}{}`, struct{}{}}}
+	a := []fatom{{`1`, 1}, {`"s"`, "s"}, {`nil`, nil}, {`e1`, e1}, {`struct{}{}`, struct{}{}}, {`"a\n"`, "a\n"}}
 	if thorough {
-		a = append(a, fatom{`2.5`, 2.5}, fatom{`"a\n"`, "a\n"}, fatom{`[]int{1}`, []int{1}})
+		a = append(a, fatom{`2.5`, 2.5}, fatom{`"\n\n"`, "\n\n"}, fatom{`[]int{1}`, []int{1}})
 	}
 	return a
 }
@@ -830,8 +847,8 @@ func main() {
 	run.Finish(map[string]any{
 		"evaluations":         c.evals.Load(),
 		"distinct_nontrivial": len(outcomes) + len(messages),
-		"rule": fmt.Sprintf("structured: every list of length <=%d over the 10 atoms %s through every With-family and *w method found by reflection (Log* at each of the 7 levels), Error enabled; the same for length <=%d on a core with Error disabled and <=%d on a no-op logger; chained With-family(a).Infow(b) for all a,b of length <=%d. formatting: %d templates %q x every list of length <=%d over %d atoms through every print/printf/println method at every level. distinct = distinct reference outcomes (expected field classes+keys, dangling value, invalid pairs with position, extra errors) plus distinct (family, expected message)",
-			maxLen, render([]int{0, 1, 2, 3, 4, 5, 6, 7, 8, 9}), offLen, nopLen, chainLen, len(tmpls), tmpls, fLen, len(fa)),
+		"rule": fmt.Sprintf("structured: every list of length <=%d over the %d atoms %s through every With-family and *w method found by reflection (Log* at each of the 7 levels), Error enabled; the same for length <=%d on a core with Error disabled and <=%d on a no-op logger; chained With-family(a).Infow(b) for all a,b of length <=%d. formatting: %d templates %q x every list of length <=%d over %d atoms through every print/printf/println method at every level. distinct = distinct reference outcomes (expected field classes+keys, dangling value, invalid pairs with position, extra errors) plus distinct (family, expected message)",
+			maxLen, len(atoms), render(allAtomIdx()), offLen, nopLen, chainLen, len(tmpls), tmpls, fLen, len(fa)),
 		"samples":                     samples,
 		"exhaustive":                  true,
 		"methods":                     names,
